@@ -58,6 +58,7 @@ type Ctx struct {
 	trace       *os.File
 	progress    atomic.Int64
 	cur         atomic.Pointer[curCase]
+	sub      atomic.Pointer[subCase]
 	start       time.Time
 	Deadline    time.Time
 }
@@ -86,6 +87,7 @@ func (c *Ctx) Begin(kind, entry string, in any) bool {
 	c.caseIdx++
 	c.progress.Add(1)
 	c.cur.Store(&curCase{idx: c.caseIdx, kind: kind, entry: entry, in: in})
+	c.sub.Store(nil)
 	if c.trace != nil {
 		rep := WatchdogReport{Why: "trace", Idx: c.caseIdx, Kind: kind, Entry: entry}
 		rep.Case, _ = json.Marshal(in)
@@ -98,6 +100,26 @@ func (c *Ctx) Begin(kind, entry string, in any) bool {
 		return false
 	}
 	return !c.Skip[c.caseIdx]
+}
+
+type subCase struct {
+	kind string
+	in   func() any
+}
+
+// SetSub announces the individual execution a block-level case is about to run (kind must be a registered replay
+// kind); the watchdog and the crash trace report it instead of the block when the worker dies in it.
+func (c *Ctx) SetSub(kind string, in func() any) {
+	c.sub.Store(&subCase{kind: kind, in: in})
+	if c.trace != nil {
+		if cc := c.cur.Load(); cc != nil {
+			rep := WatchdogReport{Why: "trace", Idx: cc.idx, Kind: kind, Entry: cc.entry}
+			rep.Case, _ = json.Marshal(in())
+			b, _ := json.Marshal(rep)
+			c.trace.Truncate(0)
+			c.trace.WriteAt(append(b, '\n'), 0)
+		}
+	}
 }
 
 // Tick tells the watchdog that a long block-level case is alive.
@@ -479,6 +501,12 @@ func (c *Ctx) die(why string, code int) {
 	if cc := c.cur.Load(); cc != nil {
 		rep.Idx, rep.Kind, rep.Entry = cc.idx, cc.kind, cc.entry
 		rep.Case, _ = json.Marshal(cc.in)
+	}
+	// a block-level case that announces its individual executions: report the execution that is running (replayable
+	// by itself), not the block
+	if sc := c.sub.Load(); sc != nil {
+		rep.Kind = sc.kind
+		rep.Case, _ = json.Marshal(sc.in())
 	}
 	b, _ := json.Marshal(rep)
 	fmt.Fprintf(os.Stderr, "\nWATCHDOG %s\n", b)
